@@ -232,6 +232,7 @@ func runC11(p *load.Program, r *oblig.Report) {
 	c.ruleR12()
 	c.ruleR13()
 	c11DoUnsetsDeadline(p, r)
+	shareRules(r, "C11", "C11.R15 error exits of the response readers report what is left to drain (C17.R5)", func(sub *oblig.Report) { c17SizeThreading(p, sub) })
 }
 
 // ruleR1: broker errors raised mid-frame are followed by a drain.
